@@ -1,4 +1,4 @@
-import StraxModel.Lemmas.PipelineBridge
+import StraxModel.Lemmas.PipelineVocab
 import StraxModel.Props.C08
 /-
   Helper lemmas for property C01, part 7: `Plugin.iter` (the model `Align.iterRun` of C08) IS an aligner
@@ -203,7 +203,8 @@ theorem LawAbiding.starts_ge : ∀ {s : List Chunk} {R : Int × Int}, LawAbiding
 is again a plain stream (so that a rechunking edge or another `Plugin.iter` can follow). -/
 theorem iter_first_step_total_partial (rid : String) (T0 T1 : Int) (deps : List Align.Dep) (strict : Bool)
     (g : Row → Option Row) (out : String) (hgi : IntervalPreserving g) (n : Node)
-    (hna : n.aligner = Aligner.iter rid T0 T1 deps strict) (hnk : n.kernel = firstKernel g out)
+    (hna : n.aligner = Aligner.iter rid T0 T1 deps strict)
+    (hnk : n.kernel = restamp [(out, none)] (firstKernel g out))
     (a b : List Chunk) (hg : iterGuardB rid T0 T1 deps [a, b] = true)
     (hpa : plainStreamB a = true) (hR : StreamsOK (T0, T1) [a, b])
     (hk : (deps.map (fun d => d.kind)).Nodup) (hp : Align.passesSufficeB deps [a, b] strict = true) :
@@ -237,21 +238,26 @@ theorem iter_first_step_total_partial (rid : String) (T0 T1 : Int) (deps : List 
     have hT' : Align.startAtB T0 [c0 :: rest0, b] = true := hT
     simp only [Align.startAtB, List.all_cons, Bool.and_eq_true, decide_eq_true_eq] at hT'
     exact ⟨hv.1.2, hpa.2.1, ((Chunk.wf_iff c0).1 hgood.1).1, hT'.1⟩
-  refine ⟨perChunk (List.filterMap g) out (r.calls.map (callChunk deps (ridOf [c0 :: rest0, b]) (targetsOf [c0 :: rest0, b]) 0)), ?_, ?_, ?_, ?_⟩
-  · simp [Node.step, hna, hnk, hrun, firstKernel]
-  · have hlo := lawAbiding_perChunk (f := List.filterMap g) (out := out) (fun c hc => chunkOK_filterMap hgi out c hc) hla
-    apply plain_of_law (rid := rid) (dt := out) hlo
+  generalize hS0 : r.calls.map (callChunk deps (ridOf [c0 :: rest0, b]) (targetsOf [c0 :: rest0, b]) 0) = S0 at *
+  generalize hS1 : r.calls.map (callChunk deps (ridOf [c0 :: rest0, b]) (targetsOf [c0 :: rest0, b]) 1) = S1 at *
+  have hlo := lawAbiding_perChunk (f := List.filterMap g) (out := out) (fun c hc => chunkOK_filterMap hgi out c hc) hla
+  have hsp : span (perChunk (List.filterMap g) out S0) = some (T0, T1) := by rw [span_perChunk]; exact hsa
+  obtain ⟨-, q2, q3⟩ := restamp_stream out (kindOfIns [S0, S1]) (perChunk (List.filterMap g) out S0)
+  have hlaw : LawAbiding ((perChunk (List.filterMap g) out S0).map (restampChunk out (kindOfIns [S0, S1]))) :=
+    lawAbiding_of (q3 hlo.all_ok) (by rw [adjacentB_of_bounds q2]; exact hlo.adjacent)
+  have hspan : span ((perChunk (List.filterMap g) out S0).map (restampChunk out (kindOfIns [S0, S1]))) = some (T0, T1) := by
+    rw [span_of_bounds q2]; exact hsp
+  refine ⟨(perChunk (List.filterMap g) out S0).map (restampChunk out (kindOfIns [S0, S1])), ?_, ?_, hlaw, hspan⟩
+  · simp [Node.step, hna, hnk, hrun, firstKernel, restamp, stampAll]
+  · apply plain_of_law (rid := rid) (dt := out) hlaw
     · intro c hc
-      have hsp : span (perChunk (List.filterMap g) out (r.calls.map (callChunk deps (ridOf [c0 :: rest0, b]) (targetsOf [c0 :: rest0, b]) 0))) = some (T0, T1) := by
-        rw [span_perChunk]; exact hsa
-      have := hlo.starts_ge hsp c hc
+      have := hlaw.starts_ge hspan c hc
       simp only at this
       omega
     · intro c hc
-      simp only [perChunk, List.mem_map] at hc
-      obtain ⟨x, ⟨cl, -, rfl⟩, rfl⟩ := hc
-      simp [uniformB, setRows, callChunk, ridOf, targetsOf, hc0.1, hc0.2.1]
-  · exact lawAbiding_perChunk (fun c hc => chunkOK_filterMap hgi out c hc) hla
-  · rw [span_perChunk]; exact hsa
+      subst hS0
+      simp only [perChunk, List.map_map, List.mem_map] at hc
+      obtain ⟨cl, -, rfl⟩ := hc
+      simp [uniformB, restampChunk, setRows, callChunk, ridOf, targetsOf, hc0.1, hc0.2.1]
 
 end Strax.Pipeline
